@@ -22,6 +22,9 @@ func init() {
 	// the token codes hard-wired in GoAst.v
 	want := map[token.Token]int{token.INT: 5, token.FLOAT: 6, token.STRING: 9, token.AND: 17, token.EQL: 39, token.LSS: 40,
 		token.GTR: 41, token.ASSIGN: 42, token.NEQ: 44, token.LEQ: 45, token.GEQ: 46, token.DEFINE: 47, token.TYPE: 84}
+	if types.IsInteger != 2 || types.Int != 2 || types.Uint != 7 || types.Uintptr != 12 {
+		panic("go/types basic constants differ from Model_Checkers.v")
+	}
 	for t, n := range want {
 		if int(t) != n {
 			panic(fmt.Sprintf("go/token code of %v is %d, GoAst.v assumes %d", t, int(t), n))
@@ -166,7 +169,7 @@ func sigfact(t types.Type) string {
 	return fmt.Sprintf("(Sig %d %s %s %s)", sig.Params().Len(), coqfmt.Bool(sig.Variadic()), recv, coqfmt.Bool(opt))
 }
 
-func (c *converter) facts(n ast.Node) string {
+func (c *converter) facts(n ast.Node, wantBasic bool) string {
 	e, ok := n.(ast.Expr)
 	if !ok {
 		return "nf"
@@ -204,6 +207,17 @@ func (c *converter) facts(n ast.Node) string {
 			multi = tup.Len()
 		}
 	}
+	if wantBasic {
+		if bt, ok := typ.Underlying().(*types.Basic); ok {
+			size1 := 0
+			func() {
+				defer func() { recover() }()
+				size1 = int(Sizes.Sizeof(bt)) + 1
+			}()
+			return fmt.Sprintf("(FB %s %d %s %s %s %s %s %s %s %s %d %d %d %d)", obj, objid, coqfmt.Bool(astnil), ty, coqfmt.Bool(deflit), coqfmt.Bool(arr),
+				coqfmt.Bool(pure), cst, sg, coqfmt.Bool(istype), multi, int(bt.Info()), int(bt.Kind()), size1)
+		}
+	}
 	if obj == "ONone" && objid == 0 && astnil && ty == "TyOther" && !deflit && !arr && !pure && cst == "None" && sg == "NoSig" && !istype && multi == 0 {
 		return "nf"
 	}
@@ -211,7 +225,7 @@ func (c *converter) facts(n ast.Node) string {
 		coqfmt.Bool(pure), cst, sg, coqfmt.Bool(istype), multi)
 }
 
-func (c *converter) node(n ast.Node) {
+func (c *converter) node(n ast.Node, wantBasic bool) {
 	c.nodes++
 	tag, s, a, b := "", `""`, 0, 0
 	switch x := n.(type) {
@@ -283,11 +297,25 @@ func (c *converter) node(n ast.Node) {
 			tag = "(TOther CNode)"
 		}
 	}
-	fmt.Fprintf(&c.b, "(Nd %s %d %s %d %d %s ", tag, c.pos(n.Pos()), s, a, b, c.facts(n))
+	fmt.Fprintf(&c.b, "(Nd %s %d %s %d %d %s ", tag, c.pos(n.Pos()), s, a, b, c.facts(n, wantBasic))
 	kids := childrenOf(n)
-	for _, k := range kids {
+	// truncateCmp reads the underlying basic type of comparison operands and of the single argument of f(x)
+	kidBasic := func(i int) bool {
+		switch x := n.(type) {
+		case *ast.BinaryExpr:
+			switch x.Op {
+			case token.LSS, token.GTR, token.LEQ, token.GEQ, token.EQL, token.NEQ:
+				return true
+			}
+		case *ast.CallExpr:
+			_, isIdent := x.Fun.(*ast.Ident)
+			return isIdent && len(x.Args) == 1 && i == 1
+		}
+		return false
+	}
+	for i, k := range kids {
 		c.b.WriteString("(NC ")
-		c.node(k)
+		c.node(k, kidBasic(i))
 		c.b.WriteString(" ")
 	}
 	c.b.WriteString("NN")
@@ -305,7 +333,7 @@ func ConvertFile(p *Pkg, f *File, starts []int) (string, int) {
 		if i > 0 {
 			c.b.WriteString(";\n  ")
 		}
-		c.node(d)
+		c.node(d, false)
 	}
 	c.b.WriteString("];\n token_starts := [")
 	for i, s := range starts {
